@@ -90,7 +90,7 @@ def gen_cells(ck):
         n_rounds = rng.randint(4, 8) if search != "RegEvo" else rng.randint(6, 12)
         if search == "CBO" and (cell["surrogate"] in ("GP", "HGBRT") or cell["acq"].startswith("MES")):
             n_rounds = min(n_rounds, 5)
-        script = ac.gen_script(rng, n_rounds, 4)
+        script = ac.gen_script(rng, n_rounds, 4, again_p=rng.choice([0.0, 0.0, 0.25]))
         mode = "search" if (search != "RegEvo" and rng.random() < 0.12) else "asktell"
         cells.append((cell, spec, script, mode))
     return cells
